@@ -83,6 +83,15 @@ func (p *Prog) influence(fn *ssa.Function, withControl bool, seeds ...ssa.Value)
 				}
 			}
 		}
+		// a variable captured by a closure that is called: what the variable holds influences what the closure computes
+		if a, ok := v.(*ssa.Alloc); ok {
+			eachInstr(fn, func(b *ssa.BasicBlock, i2 ssa.Instruction) {
+				if st, ok := i2.(*ssa.Store); ok && rootAlloc(st.Addr) == a {
+					push(st.Val)
+					pushBlockConds(st.Block())
+				}
+			})
+		}
 		// loads of locals: the values stored there
 		if u, ok := v.(*ssa.UnOp); ok && u.Op == token.MUL {
 			if a := rootAlloc(u.X); a != nil {
@@ -571,7 +580,7 @@ func ruleInflFilter(p *Prog, r *Report, walkers []string) {
 					continue
 				}
 				g := staticCallee(&x.Call)
-				if g == pred || g == fn || (g != nil && p.InModule(g) && p.usesOnlyAsFilter(g, x, sk, pred)) {
+				if g == pred || g == fn || (g != nil && p.InModule(g) && p.usesOnlyAsFilterRec(g, x, sk, pred, map[*ssa.Function]bool{fn: true})) {
 					continue
 				}
 				bad = "passed to " + p.calleeName(&x.Call)
@@ -623,6 +632,16 @@ func ruleInflFilter(p *Prog, r *Report, walkers []string) {
 
 // usesOnlyAsFilter: callee g receives the sub-key map in a parameter that itself is only used as a filter.
 func (p *Prog) usesOnlyAsFilter(g *ssa.Function, call *ssa.Call, sk ssa.Value, pred *ssa.Function) bool {
+	return p.usesOnlyAsFilterRec(g, call, sk, pred, map[*ssa.Function]bool{})
+}
+
+// usesOnlyAsFilterRec follows the sub-key map through the module functions it is handed to (mutually recursive walkers included):
+// everywhere it may only reach the predicate, len and nil tests.
+func (p *Prog) usesOnlyAsFilterRec(g *ssa.Function, call *ssa.Call, sk ssa.Value, pred *ssa.Function, visiting map[*ssa.Function]bool) bool {
+	if visiting[g] {
+		return true
+	}
+	visiting[g] = true
 	idx := -1
 	for i, a := range call.Call.Args {
 		if a == sk {
@@ -640,6 +659,9 @@ func (p *Prog) usesOnlyAsFilter(g *ssa.Function, call *ssa.Call, sk ssa.Value, p
 			}
 			h := staticCallee(&x.Call)
 			if h == pred || h == g {
+				continue
+			}
+			if h != nil && p.InModule(h) && len(h.Blocks) > 0 && p.usesOnlyAsFilterRec(h, x, g.Params[idx], pred, visiting) {
 				continue
 			}
 			return false
